@@ -79,36 +79,37 @@ def parseTimeGranularity (g : Bytes) : Option Nat :=
 def tokenRank (c : UInt8) : Nat :=
   if c = 67 then 1 else if c = 81 then 2 else if c = 80 then 3 else if c = 83 then 4 else if c = 84 then 5 else 0
 
+/-- the `switch` of the token loop of `parseDataInputTokens` (`tokU` is `strings.ToUpper(tok)`) -/
+def tokenEffect (cfg : SuiteConfig) (tok tokU : Bytes) : Option SuiteConfig :=
+  if tokU = [67] then some { cfg with incC := true }
+  else if hasPrefix [81, 78] tokU then                                   -- "QN"
+    if tokU.length = 4 then
+      let num := tokU.drop 2
+      if num = [48, 56] then some { cfg with incQ := true, challenge := 1 }
+      else if num = [49, 48] then some { cfg with incQ := true, challenge := 2 }
+      else none
+    else some { cfg with incQ := true }
+  else if hasPrefix [81, 65] tokU then some { cfg with incQ := true }    -- "QA"
+  else if hasPrefix [81, 72] tokU then some { cfg with incQ := true }    -- "QH"
+  else if hasPrefix [80, 83, 72, 65] tokU then                          -- "PSHA"
+    if tokU = 80 :: sSHA1 then some { cfg with incP := true, pwHash := 1 }
+    else if tokU = 80 :: sSHA256 then some { cfg with incP := true, pwHash := 2 }
+    else if tokU = 80 :: sSHA512 then some { cfg with incP := true, pwHash := 3 }
+    else none
+  else if hasPrefix [84] tokU then                                       -- "T"
+    match parseTimeGranularity (tok.drop 1) with
+    | some secs => some { cfg with incT := true, timeStep := secs }
+    | none => none
+  else if hasPrefix [83] tokU then                                       -- "S"
+    if tokU.length ≠ 1 then
+      if (parseSuiteNumber (tokU.drop 1)).isNone ∨ tokU.length ≠ 4 then none
+      else some { cfg with incS := true }
+    else some { cfg with incS := true }
+  else none
+
 /-- one iteration of the token loop of `parseDataInputTokens`: the `switch`, then the rank check -/
 def parseToken (cfg : SuiteConfig) (last : Nat) (tok : Bytes) : Option (SuiteConfig × Nat) :=
-  let tokU := toUpperAscii tok
-  let r : Option SuiteConfig :=
-    if tokU = [67] then some { cfg with incC := true }
-    else if hasPrefix [81, 78] tokU then                                   -- "QN"
-      if tokU.length = 4 then
-        let num := tokU.drop 2
-        if num = [48, 56] then some { cfg with incQ := true, challenge := 1 }
-        else if num = [49, 48] then some { cfg with incQ := true, challenge := 2 }
-        else none
-      else some { cfg with incQ := true }
-    else if hasPrefix [81, 65] tokU then some { cfg with incQ := true }    -- "QA"
-    else if hasPrefix [81, 72] tokU then some { cfg with incQ := true }    -- "QH"
-    else if hasPrefix [80, 83, 72, 65] tokU then                          -- "PSHA"
-      if tokU = 80 :: sSHA1 then some { cfg with incP := true, pwHash := 1 }
-      else if tokU = 80 :: sSHA256 then some { cfg with incP := true, pwHash := 2 }
-      else if tokU = 80 :: sSHA512 then some { cfg with incP := true, pwHash := 3 }
-      else none
-    else if hasPrefix [84] tokU then                                       -- "T"
-      match parseTimeGranularity (tok.drop 1) with
-      | some secs => some { cfg with incT := true, timeStep := secs }
-      | none => none
-    else if hasPrefix [83] tokU then                                       -- "S"
-      if tokU.length ≠ 1 then
-        if (parseSuiteNumber (tokU.drop 1)).isNone ∨ tokU.length ≠ 4 then none
-        else some { cfg with incS := true }
-      else some { cfg with incS := true }
-    else none
-  match r, tokU with
+  match tokenEffect cfg tok (toUpperAscii tok), toUpperAscii tok with
   | some cfg', c :: _ =>
     let rank := tokenRank c
     if rank ≤ last then none else some (cfg', rank)
